@@ -12,7 +12,7 @@ namespace Rzil
 /-- all constructors at once (`Good` = the statement for one expression, `GoodArgs` for an argument list) -/
 theorem good_all (ms : MacroSem) (σ : MState) (asg : List String) (hms : MsOK ms) (e : CExpr) : Good ms σ asg e := by
   refine CExpr.rec (motive_1 := Good ms σ asg) (motive_2 := GoodArgs ms σ asg)
-    ?reg ?imm ?lit ?var ?cast ?un ?not ?bin ?shift ?cmp ?log ?tern ?macroc ?load ?post ?call ?stmtexpr ?seqexpr ?nil ?cons e
+    ?reg ?imm ?lit ?var ?cast ?un ?not ?bin ?shift ?cmp ?log ?tern ?macroc ?load ?post ?call ?stmtexpr ?seqexpr ?callx ?xmacro ?nil ?cons e
   case reg => exact fun n k t => good_reg ms σ asg n k t
   case imm => exact fun l s => good_imm ms σ asg l s
   case lit => exact fun v h s => good_lit ms σ asg v h s
@@ -31,6 +31,8 @@ theorem good_all (ms : MacroSem) (σ : MState) (asg : List String) (hms : MsOK m
   case call => intro n a r p _ _ vC ce hC _; rw [evalC_call] at hC; cases hC
   case stmtexpr => intro t v e _ _ vC ce hC _; rw [evalC_stmtexpr] at hC; cases hC
   case seqexpr => intro n x a p v _ _ _ vC ce hC _; rw [evalC_seqexpr] at hC; cases hC
+  case callx => intro n x a r p _ _ vC ce hC _; rw [evalC_callx] at hC; cases hC
+  case xmacro => intro n x r _ vC ce hC _; rw [evalC_xmacro] at hC; cases hC
   case nil => exact goodArgs_nil ms σ asg
   case cons => exact fun a as iha ihas => goodArgs_cons ms σ asg a as iha ihas
 
@@ -120,7 +122,7 @@ theorem cmp_signed_iff_common_signed {ms σ ca cb ta tb} {x : BitVec ta.width} {
 
 theorem pn_all (asg : List String) (e : CExpr) : PN asg e := by
   refine CExpr.rec (motive_1 := PN asg) (motive_2 := PNs asg)
-    ?reg ?imm ?lit ?var ?cast ?un ?not ?bin ?shift ?cmp ?log ?tern ?macroc ?load ?post ?call ?stmtexpr ?seqexpr ?nil ?cons e
+    ?reg ?imm ?lit ?var ?cast ?un ?not ?bin ?shift ?cmp ?log ?tern ?macroc ?load ?post ?call ?stmtexpr ?seqexpr ?callx ?xmacro ?nil ?cons e
   case reg => exact fun n k t => pn_reg asg n k t
   case imm => exact fun l s => pn_imm asg l s
   case lit => exact fun v h s => pn_lit asg v h s
@@ -139,6 +141,8 @@ theorem pn_all (asg : List String) (e : CExpr) : PN asg e := by
   case call => intro n a r p _ hc; rw [CarveN] at hc; cases hc
   case stmtexpr => intro t v e _ hc; rw [CarveN] at hc; cases hc
   case seqexpr => intro n x a p v _ _ hc; rw [CarveN] at hc; cases hc
+  case callx => intro n x a r p _ hc; rw [CarveN] at hc; cases hc
+  case xmacro => intro n x r hc; rw [CarveN] at hc; cases hc
   case nil => exact pns_nil asg
   case cons => exact fun a as iha ihas => pns_cons asg a as iha ihas
 
